@@ -609,20 +609,74 @@ func propC06(c *Check) {
 	{
 		c.touch(dq)
 		r := p.R(dq)
-		ok := false
-		for _, e := range Exits(dq) {
-			if e.Kind == exitFailure {
+		// order is a property of the append chain, not of the text of a φ (whose alternatives are sorted): the appends
+		// of marshalled locking txs extend a slice that already went through the appends of the btc txs, never the
+		// other way round, and the result returned is at the end of that chain
+		var appB, appL []*ssa.Call
+		for _, ci := range callsIn(dq) {
+			call, ok := ci.(*ssa.Call)
+			if !ok {
 				continue
 			}
-			s := r.E(e.Ret.Results[0])
-			ok = strings.Contains(s, "Transaction.MarshalBinary("+lck+"["+i+"])#0") && strings.Contains(s, "Transaction.MarshalBinary("+btc+"["+i+"])#0") &&
-				strings.Index(s, "MarshalBinary("+lck) < strings.Index(s, "MarshalBinary("+btc)
-			if !ok {
-				c.Violated("R4", "dequeue-result @ "+FuncKey(dq), p.InstrPos(e.Ret), "result is not btc txs followed by locking txs: "+s)
+			if bi, ok := call.Call.Value.(*ssa.Builtin); !ok || bi.Name() != "append" || len(call.Call.Args) != 2 {
+				continue
+			}
+			el := r.E(call.Call.Args[1])
+			switch {
+			case strings.Contains(el, "Transaction.MarshalBinary("+btc+"["+i+"])#0"):
+				appB = append(appB, call)
+			case strings.Contains(el, "Transaction.MarshalBinary("+lck+"["+i+"])#0"):
+				appL = append(appL, call)
+			}
+		}
+		// derives(v, target): v is target, or a φ / append whose base derives from it
+		var derives func(v ssa.Value, target *ssa.Call, seen map[ssa.Value]bool) bool
+		derives = func(v ssa.Value, target *ssa.Call, seen map[ssa.Value]bool) bool {
+			if v == ssa.Value(target) {
+				return true
+			}
+			if seen[v] {
+				return false
+			}
+			seen[v] = true
+			switch x := v.(type) {
+			case *ssa.Phi:
+				for _, e := range x.Edges {
+					if derives(e, target, seen) {
+						return true
+					}
+				}
+			case *ssa.Call:
+				if bi, ok := x.Call.Value.(*ssa.Builtin); ok && bi.Name() == "append" && len(x.Call.Args) > 0 {
+					return derives(x.Call.Args[0], target, seen)
+				}
+			}
+			return false
+		}
+		ok := len(appB) == 1 && len(appL) == 1
+		why := fmt.Sprintf("%d appends of marshalled btc txs and %d of locking txs (expected one each)", len(appB), len(appL))
+		if ok {
+			switch {
+			case !derives(appL[0].Call.Args[0], appB[0], map[ssa.Value]bool{}):
+				ok, why = false, "the locking txs are not appended to the slice that holds the btc txs"
+			case derives(appB[0].Call.Args[0], appL[0], map[ssa.Value]bool{}):
+				ok, why = false, "a btc tx can be appended after a locking tx"
+			}
+		}
+		if ok {
+			for _, e := range Exits(dq) {
+				if e.Kind == exitFailure {
+					continue
+				}
+				if !derives(e.Ret.Results[0], appL[0], map[ssa.Value]bool{}) {
+					ok, why = false, "the result returned is not the slice the locking txs were appended to: "+r.E(e.Ret.Results[0])
+				}
 			}
 		}
 		if ok {
 			c.Held("R4", "dequeue-result @ "+FuncKey(dq), p.Pos(dq.Pos()), "append(append(res, marshal(btc[i])…), marshal(locking[i])…)")
+		} else {
+			c.Violated("R4", "dequeue-result @ "+FuncKey(dq), p.Pos(dq.Pos()), "result is not btc txs followed by locking txs: "+why)
 		}
 	}
 	// NewEthBlock verifies before processing
